@@ -238,6 +238,7 @@ void WalletSim::Rescan()
 void WalletSim::Unload()
 {
     if (!w) return;
+    sim.SyncSignals(); // drain queued callbacks that still reference the wallet
     w->m_chain_notifications_handler.reset();
     w.reset();
 }
